@@ -117,4 +117,103 @@ theorem encode_spec (wh : Wh) (m : Mem) (b sz : Nat) (hfit : (encBytes wh).lengt
   · intro i hi
     exact Librfn.C12.writes_confined m (Librfn.Model.Pack.init b sz) _ i (by simpa [Librfn.Model.Pack.init] using hi)
 
+/-! ### what the decoder's stages hold when their reads fit: re-encoding gives back the bytes -/
+
+theorem fit_bytes (m : Mem) (b sz c n : Nat) (h : c + n ≤ sz) :
+    unpackBytes m ⟨b, sz, c⟩ n = (readBytes m (b + c) n, ⟨b, sz, c + n⟩) := by
+  simp [unpackBytes, fits, advance, h]
+theorem fit_u16 (m : Mem) (b sz c : Nat) (h : c + 2 ≤ sz) :
+    unpackU16le m ⟨b, sz, c⟩ = (dec16 (m (b + c)) (m (b + c + 1)), ⟨b, sz, c + 2⟩) := by
+  simp [unpackU16le, fits, advance, h]
+theorem fit_u32 (m : Mem) (b sz c : Nat) (h : c + 4 ≤ sz) :
+    unpackU32le m ⟨b, sz, c⟩ = (dec32 (m (b + c)) (m (b + c + 1)) (m (b + c + 2)) (m (b + c + 3)), ⟨b, sz, c + 4⟩) := by
+  simp [unpackU32le, fits, advance, h]
+
+def bytesOf (ps : List POp) : List UInt8 := ps.flatMap POp.stored
+
+theorem encBytes_split (wh : Wh) : encBytes wh = bytesOf (headOps wh) ++ bytesOf (extOps wh) ++ bytesOf (tailOps wh) := by
+  simp [encBytes, encOps, bytesOf]
+
+/-- the 36 fixed bytes: re-encoding the eleven fields the first stage read reproduces them -/
+theorem head_bytes (m : Mem) (b sz : Nat) (h : 36 ≤ sz) : bytesOf (headOps (decHead m b sz).1) = readBytes m b 36 := by
+  simp only [decHead, Librfn.Model.Pack.init, unpackBytes_pk, unpackU16le_pk, unpackU32le_pk, advance, Nat.reduceAdd,
+    Nat.zero_add]
+  simp only [fit_bytes m b sz 0 4 (by omega), fit_u32 m b sz 4 (by omega), fit_bytes m b sz 8 4 (by omega),
+    fit_bytes m b sz 12 4 (by omega), fit_u32 m b sz 16 (by omega), fit_u16 m b sz 20 (by omega),
+    fit_u16 m b sz 22 (by omega), fit_u32 m b sz 24 (by omega), fit_u32 m b sz 28 (by omega),
+    fit_u16 m b sz 32 (by omega), fit_u16 m b sz 34 (by omega)]
+  simp [bytesOf, headOps, POp.stored, enc_dec32, enc_dec16, readBytes, Nat.add_assoc]
+
+theorem decExt_headOps (m : Mem) (s : Wh × Pk) : headOps (decExt m s).1 = headOps s.1 := by
+  unfold decExt
+  by_cases h : 18#32 ≤ s.1.fmtChunkSize
+  · by_cases h2 : (unpackU16le m s.2).1 = 22#16 <;> simp [h, h2, headOps]
+  · simp [h]
+
+theorem decTail_headOps (m : Mem) (s : Wh × Pk) : headOps (decTail m s).1 = headOps s.1 := by
+  unfold decTail
+  by_cases h : (unpackBytes m s.2 4).1 = fact <;> simp [h, headOps]
+
+theorem decTail_extOps (m : Mem) (s : Wh × Pk) : extOps (decTail m s).1 = extOps s.1 := by
+  unfold decTail
+  by_cases h : (unpackBytes m s.2 4).1 = fact <;> simp [h, extOps]
+
+/-- the extension bytes as the encoder re-creates them: the same bytes, except that an extension the decoder skipped
+    is written as zeros -/
+def extNorm (m : Mem) (b c : Nat) (fmt : BitVec 32) : List UInt8 :=
+  if 18#32 ≤ fmt then
+    (if dec16 (m (b + c)) (m (b + c + 1)) = 22#16 then readBytes m (b + c) 24
+     else readBytes m (b + c) 2 ++ List.replicate (fmt - 18#32).toNat 0)
+  else []
+
+theorem ext_bytes (m : Mem) (wh : Wh) (b sz c : Nat) (h : c + extLen m (wh, ⟨b, sz, c⟩) ≤ sz) :
+    bytesOf (extOps (decExt m (wh, ⟨b, sz, c⟩)).1) = extNorm m b c wh.fmtChunkSize ∧
+    (extNorm m b c wh.fmtChunkSize).length = extLen m (wh, ⟨b, sz, c⟩) := by
+  by_cases hf : 18#32 ≤ wh.fmtChunkSize
+  · by_cases hcb : (unpackU16le m ⟨b, sz, c⟩).1 = 22#16
+    · have hl : extLen m (wh, ⟨b, sz, c⟩) = 24 := by simp [extLen, hf, hcb]
+      rw [hl] at h ⊢
+      have f0 := fit_u16 m b sz c (by omega)
+      rw [f0] at hcb
+      simp only at hcb
+      simp only [decExt, hf, if_true, unpackBytes_pk, unpackU16le_pk, unpackU32le_pk, advance, f0, hcb,
+        fit_u16 m b sz (c + 2) (by omega), fit_u32 m b sz (c + 2 + 2) (by omega), fit_bytes m b sz (c + 2 + 2 + 4) 16 (by omega)]
+      have hE : encU16le (dec16 (m (b + c)) (m (b + c + 1))) = [m (b + c), m (b + c + 1)] := enc_dec16 _ _
+      rw [hcb] at hE
+      simp only [Nat.add_assoc] at hE hcb
+      simp [extNorm, hf, hcb, hE, bytesOf, extOps, POp.stored, enc_dec32, enc_dec16, readBytes, Nat.add_assoc]
+    · have hl : extLen m (wh, ⟨b, sz, c⟩) = 2 + (wh.fmtChunkSize - 18#32).toNat := by simp [extLen, hf, hcb]
+      rw [hl] at h ⊢
+      have f0 := fit_u16 m b sz c (by omega)
+      rw [f0] at hcb
+      simp only at hcb
+      simp only [decExt, hf, if_true, unpackU16le_pk, unpackSkip_pk, advance, f0, hcb, if_false]
+      simp only [Nat.add_assoc] at hcb
+      simp [extNorm, hf, hcb, bytesOf, extOps, POp.stored, enc_dec16, readBytes, Nat.add_assoc]
+      omega
+  · simp [decExt, extLen, extNorm, hf, bytesOf, extOps]
+
+theorem tail_bytes (m : Mem) (wh : Wh) (b sz c : Nat) (hz : wh.factChunkId ≠ fact)
+    (h : c + tailLen m (wh, ⟨b, sz, c⟩) ≤ sz) :
+    bytesOf (tailOps (decTail m (wh, ⟨b, sz, c⟩)).1) = readBytes m (b + c) (tailLen m (wh, ⟨b, sz, c⟩)) := by
+  by_cases hf : (unpackBytes m ⟨b, sz, c⟩ 4).1 = fact
+  · have hl : tailLen m (wh, ⟨b, sz, c⟩) = 20 := by simp [tailLen, hf]
+    rw [hl] at h ⊢
+    have f0 := fit_bytes m b sz c 4 (by omega)
+    rw [f0] at hf
+    simp only at hf
+    simp only [decTail, unpackBytes_pk, unpackU32le_pk, advance, f0, hf, if_true,
+      fit_u32 m b sz (c + 4) (by omega), fit_u32 m b sz (c + 4 + 4) (by omega), fit_bytes m b sz (c + 4 + 4 + 4) 4 (by omega),
+      fit_u32 m b sz (c + 4 + 4 + 4 + 4) (by omega)]
+    have e20 : readBytes m (b + c) 20 = readBytes m (b + c) 4 ++ readBytes m (b + c + 4) 16 := readBytes_append m (b + c) 4 16
+    rw [e20, hf]
+    simp [bytesOf, tailOps, POp.stored, enc_dec32, readBytes, Nat.add_assoc]
+  · have hl : tailLen m (wh, ⟨b, sz, c⟩) = 8 := by simp [tailLen, hf]
+    rw [hl] at h ⊢
+    have f0 := fit_bytes m b sz c 4 (by omega)
+    rw [f0] at hf
+    simp only at hf
+    simp only [decTail, unpackBytes_pk, unpackU32le_pk, advance, f0, hf, if_false, fit_u32 m b sz (c + 4) (by omega)]
+    simp [bytesOf, tailOps, POp.stored, enc_dec32, readBytes, Nat.add_assoc, hz]
+
 end Librfn.Lemmas.WavCodec
